@@ -51,3 +51,11 @@ Example ex_dust :
   create_checked [mkInp 0 1000 None; mkInp 1 5000 (Some 5000)] 1000 330 2000 800
   = Ok (mkTx [mkInp 1 5000 (Some 5000); mkInp 0 1000 None] [5000] None 1000).
 Proof. vm_compute. reflexivity. Qed.
+
+(* top-up: a second-level input (required output) with budget 3000 next to a
+   1000-sat input with budget 200: needs 2200 more; wallet utxos 500, 1500, 9000 *)
+Example ex_topup :
+  add_wallet_inputs 0 [mkB 20000 3000 true; mkB 1000 200 false] [500; 1500; 9000]
+  = ([mkB 20000 3000 true; mkB 1000 200 false; mkB 500 0 false; mkB 1500 0 false;
+      mkB 9000 0 false], TopSatisfied).
+Proof. vm_compute. reflexivity. Qed.
